@@ -18,6 +18,7 @@ SUBS = [
     dict(name="carrygrid", quick=dict(cases=3000, shards=3), thorough=dict(cases=30000, shards=3)),
     dict(name="carrysweep", quick=dict(cases=6, shards=1), thorough=dict(cases=12, shards=4)),
     dict(name="huge", quick=dict(cases=40, shards=1), thorough=dict(cases=8, shards=3)),
+    dict(name="far", quick=dict(cases=1, shards=2), thorough=dict(cases=3, shards=4)),
 ]
 LIB = {"crypto_aes.c", "crypto_aes_aesni.c", "crypto_aesctr.c", "crypto_aesctr_aesni.c", "cpusupport_x86_aesni.c",
        "insecure_memzero.c", "warnp.c"}
